@@ -87,6 +87,27 @@ def run(ctx):
     hdrs = header_defs()
     supported = {True: 0, False: 0}
     dropped = 0
+    # explicit float64 defaults: compared directly with the text of the definition (type, exact value,
+    # and the bytes of the all-default instance), the generator model covers zero defaults only
+    import struct as _struct
+    fres = gendefs.run_codegen(hdrs + defgen.crafted_float_defaults(), seed=ctx.seed)
+    nfloat = 0
+    if fres.get("gen_error") or fres.get("float_defaults_error"):
+        fails.append({"what": "the generator fails on float64 defaults: " + str(fres.get("gen_error") or fres.get("float_defaults_error"))[:400]})
+    else:
+        got = fres.get("float_defaults", {})
+        key = "kio.schema.zc16_float_record.v0.data:Zc16FloatRecord"
+        for n, t in defgen.FLOAT_DEFAULT_TEXTS.items():
+            nfloat += 1
+            g = got.get(f"{key}.{defgen.snake(n)}")
+            if g is None or g[0] != "float" or g[1] != float(t).hex():
+                fails.append({"what": "generated class does not carry the float64 default the definition states",
+                              "field": n, "definition_default": t, "generated": g, "definition": defgen.crafted_float_defaults()[0]})
+                break
+        want = b"".join(_struct.pack(">d", float(t)) for n, t in list(defgen.FLOAT_DEFAULT_TEXTS.items())[:-1]) + b"\x00"
+        if not fails and fres.get("default_bytes", {}).get(key) != want.hex():
+            fails.append({"what": "all-default instance of a class with float64 defaults does not encode to the bytes the definition prescribes",
+                          "python": fres.get("default_bytes", {}).get(key), "spec": want.hex(), "definition": defgen.crafted_float_defaults()[0]})
     for s in range(-2, nsets):
         if s == -2:
             defs = defgen.crafted_same_name_commons()    # a small set of its own (consecutive files matter)
@@ -244,7 +265,7 @@ def run(ctx):
         "rule": "case = (generated definition, version); the real generator is run on the set in a scratch tree, its "
                 "modules imported in a subprocess; non-trivial iff ≥ 3 fields and at least one of nullable/tagged/nested/default",
         "drawn_definitions_dropped_as_not_wellformed": dropped, "pairs_in_supported_subset": supported[True], "pairs_outside_supported_subset": supported[False],
-        "generated_classes_not_coherent_in_model": len(incoherent), "instances_encoded": ninst[0], "definition_sets": nsets, "definitions": nsets * per, "feature_counts": feats,
+        "generated_classes_not_coherent_in_model": len(incoherent), "instances_encoded": ninst[0], "float64_defaults_compared_with_definition_text": nfloat, "definition_sets": nsets, "definitions": nsets * per, "feature_counts": feats,
         "disagreements": len(disagreements), "property_failures_on_code": len(fails), "known_finding_cases": len(known),
         "samples": [],
     })
